@@ -31,6 +31,12 @@ def main():
             nt = bool(mod.nontrivial(inp, obs))
             key = mod.key(inp)
         except Exception as e:  # harness bug or an implementation failure outside the mapped ones
+            from .tape import MirrorMismatch
+            if isinstance(e, MirrorMismatch):
+                obs = common.jsonable(obs) if "obs" in dir() else {}
+                cases.append({"input": common.jsonable(inp), "obs": obs, "oracle": {"why": "the draws requested by the implementation do not match one shuffle pass per repetition/group of the design: the number or bounds of the draws depend on the data values", "cls": "draws:draws-depend-on-data"},
+                              "coq": None, "coq_extra": [], "nontrivial": False, "key": json.dumps(common.jsonable(inp), sort_keys=True, default=str)})
+                continue
             obs = {"harness_exception": traceback.format_exc()[-1500:]}
             orc = {"why": "harness could not process the case: " + repr(e)[:300], "cls": "harness-exception"}
             term, nt, key = None, False, json.dumps(common.jsonable(inp), sort_keys=True, default=str)
